@@ -1,9 +1,9 @@
-(* C20 - refinement: on every quiescent history the model (index vectors,
+(* C20 - refinement: on every nocross history the model (index vectors,
    inv_map, snapshots, value slots, pending ring) produces exactly the records
    of the abstract specification MidiSpec.astep (finite map controller ->
    (address, kind), FIFO of waiting addresses, 7-bit values) *)
 From Coq Require Import List ZArith Bool Lia.
-From RtoscV Require Import Midi.MidiModel Midi.MidiSpec Midi.MidiProofs Midi.MidiProto Midi.MidiNrt Midi.MidiInv.
+From RtoscV Require Import Midi.MidiModel Midi.MidiSpec Midi.MidiProofs Midi.MidiProto Midi.MidiNrt Midi.MidiHandshake Midi.MidiInv.
 Import ListNotations.
 Local Open Scope Z_scope.
 
@@ -212,7 +212,16 @@ Qed.
 Inductive crel : rmsg -> amsg -> Prop :=
 | cr_w : crel RWatch AWatch
 | cr_r : crel RUnwatch AUnwatch
-| cr_b s T : stab s T -> Twf T -> crel (RBind s) (ABind T).
+| cr_b s T ans : stab s T -> Twf T -> crel (RBind s ans) (ABind T (negb (ans =? -1))).
+
+Lemma cr_b_ans : forall s T id, 0 <= id -> stab s T -> Twf T -> crel (RBind s id) (ABind T true).
+Proof.
+  intros s T id H A B. replace true with (negb (id =? -1)); [constructor; assumption |].
+  destruct (Z.eqb_spec id (-1)); [lia | reflexivity].
+Qed.
+
+Lemma cr_b_f : forall s T, stab s T -> Twf T -> crel (RBind s (-1)) (ABind T false).
+Proof. intros s T A B. exact (cr_b s T (-1) A B). Qed.
 
 Record Rel (w : world) (al : astate) : Prop := {
   r_q : learnQ (wn w) = a_queue al;
@@ -275,7 +284,7 @@ Lemma unmap_sim : forall ports n T a c n' out,
   NI ports n -> NT n T -> nrt_unmap n a c = Some (n', out) ->
   let T' := match at_ctl (a, c) T with Some _ => at_remove (a, c) T | None => T end in
   NI ports n' /\ NT n' T' /\ learnQ n' = learnQ n /\
-  Forall2 crel out (match at_ctl (a, c) T with Some _ => [ABind T'] | None => [] end).
+  Forall2 crel out (match at_ctl (a, c) T with Some _ => [ABind T' false] | None => [] end).
 Proof.
   intros ports n T a c n' out I N E T'.
   destruct (NI_unmap ports n a c I) as [n1 [out1 [E1 [I1 [LQ [AK OS]]]]]].
@@ -299,13 +308,13 @@ Section Sim.
   Hypothesis U_small : (length U <= 32)%nat.
   Variable ports : list port.
 
-  Lemma Rel_step : forall w al pend tg e w' o,
-    Rel w al -> Inv U ports w pend tg -> ev_ok U e -> evok ports e ->
+  Lemma Rel_step : forall w al e w' o,
+    Rel w al -> Inv U ports w -> ev_ok U e -> evok ports e ->
     step ports w e = Some (w', o) ->
     map erase o = map erase (snd (astep ports al e)) /\ Rel w' (fst (astep ports al e)).
   Proof.
-    intros w al pend tg e w' o R [HG HJ] E1 E2 St.
-    pose proof (G_pre U w pend tg e HG) as [Nn [Nr Pre]].
+    intros w al e w' o R [[tg [P0 HG]] HJ] E1 E2 St.
+    pose proof (HP_pre U w tg P0 e HG) as [Nn [Nr Pre]].
     destruct R as [Rq Rnt Rcn Rcr Rrt Rp Rw]. destruct HJ as [Jn Jcn Jcr Jr].
     destruct e; cbn [step] in St; cbn [astep].
     - (* map *)
@@ -321,7 +330,7 @@ Section Sim.
         unfold a_unmap_out.
         destruct (at_ctl (a, c) (a_tab al)) as [i |] eqn:F; cbn [fst snd].
         * split.
-          -- rewrite erase_out. f_equal. rewrite (obs_out_eq (out0 ++ [RWatch]) ([ABind (at_remove (a, c) (a_tab al))] ++ [AWatch])).
+          -- rewrite erase_out. f_equal. rewrite (obs_out_eq (out0 ++ [RWatch]) ([ABind (at_remove (a, c) (a_tab al)) false] ++ [AWatch])).
              ++ clear. induction (_ ++ _) as [| m l IH]; [reflexivity |]. cbn. rewrite <- IH. destruct m; reflexivity.
              ++ apply Forall2_app; [exact CR | repeat constructor].
           -- constructor; cbn [wn wr chN chR nstorage inv_map learnQ a_send a_queue a_tab a_chN a_chR a_rtab a_pend a_watch];
@@ -353,8 +362,8 @@ Section Sim.
           -- apply Forall2_app; assumption.
     - (* clear *)
       cbn [nrt_clear nrt_result] in St. inversion St; subst w' o; clear St. cbn [app fst snd].
-      assert (CR : Forall2 crel (map (fun _ => RUnwatch) (learnQ (wn w)) ++ [RBind empty_store])
-                               (map (fun _ => AUnwatch) (a_queue al) ++ [ABind []])).
+      assert (CR : Forall2 crel (map (fun _ => RUnwatch) (learnQ (wn w)) ++ [RBind empty_store (-1)])
+                               (map (fun _ => AUnwatch) (a_queue al) ++ [ABind [] false])).
       { rewrite Rq. apply Forall2_app.
         - clear. induction (a_queue al); cbn; constructor; [constructor | assumption].
         - constructor; [| constructor]. constructor; [intro id; reflexivity |].
@@ -407,12 +416,12 @@ Section Sim.
              apply andb_true_iff in Off. destruct Off as [O1 O2].
              assert (Nin : ~ In id (a_pend al)).
              { intro Hi. apply mem_z_in in Hi. rewrite Hi in O1. discriminate. }
-             destruct HG as [P [A GIi]].
-             pose proof (pq_rep_unique _ _ _ (g_rep _ _ _ _ _ _ _ _ _ _ GIi) Rp) as EP. subst P.
+             destruct HG as [A GIi]. rename P0 into P.
+             pose proof (pq_rep_unique _ _ _ (h_rep _ _ _ _ _ _ _ _ GIi) Rp) as EP. subst P.
              assert (Hcap : zlen (a_pend al) < 32).
-             { assert (N2 : NoDup (id :: a_pend al)) by (constructor; [exact Nin | exact (g_nodup _ _ _ _ _ _ _ _ _ _ GIi)]).
+             { assert (N2 : NoDup (id :: a_pend al)) by (constructor; [exact Nin | exact (h_nodup _ _ _ _ _ _ _ _ GIi)]).
                assert (I2 : incl (id :: a_pend al) U).
-               { intros x [<- | Hx]; [exact HU | apply (g_inU _ _ _ _ _ _ _ _ _ _ GIi); exact Hx]. }
+               { intros x [<- | Hx]; [exact HU | apply (h_inU _ _ _ _ _ _ _ _ GIi); exact Hx]. }
                pose proof (NoDup_incl_length N2 I2) as L. cbn [length] in L. unfold zlen. lia. }
              destruct (pq_insert_spec _ _ id Rp) as [q' [Eq Rq']]; try assumption; try lia.
              rewrite Ins in Eq. inversion Eq; subst q'.
@@ -437,12 +446,12 @@ Section Sim.
           apply andb_true_iff in Off. destruct Off as [O1 O2].
           assert (Nin : ~ In id (a_pend al)).
           { intro Hi. apply mem_z_in in Hi. rewrite Hi in O1. discriminate. }
-          destruct HG as [P [A GIi]].
-          pose proof (pq_rep_unique _ _ _ (g_rep _ _ _ _ _ _ _ _ _ _ GIi) Rp) as EP. subst P.
+          destruct HG as [A GIi]. rename P0 into P.
+          pose proof (pq_rep_unique _ _ _ (h_rep _ _ _ _ _ _ _ _ GIi) Rp) as EP. subst P.
           assert (Hcap : zlen (a_pend al) < 32).
-          { assert (N2 : NoDup (id :: a_pend al)) by (constructor; [exact Nin | exact (g_nodup _ _ _ _ _ _ _ _ _ _ GIi)]).
+          { assert (N2 : NoDup (id :: a_pend al)) by (constructor; [exact Nin | exact (h_nodup _ _ _ _ _ _ _ _ GIi)]).
             assert (I2 : incl (id :: a_pend al) U).
-            { intros x [<- | Hx]; [exact HU | apply (g_inU _ _ _ _ _ _ _ _ _ _ GIi); exact Hx]. }
+            { intros x [<- | Hx]; [exact HU | apply (h_inU _ _ _ _ _ _ _ _ GIi); exact Hx]. }
             pose proof (NoDup_incl_length N2 I2) as L. cbn [length] in L. unfold zlen. lia. }
           destruct (pq_insert_spec _ _ id Rp) as [q' [Eq Rq']]; try assumption; try lia.
           rewrite Ins in Eq. inversion Eq; subst q'.
@@ -457,8 +466,21 @@ Section Sim.
       rewrite <- Rcn. destruct (chN w) as [| id rest] eqn:EN.
       + inversion St; subst w' o; clear St. cbn [fst snd]. split; [reflexivity |].
         constructor; try assumption. rewrite EN. exact Rcn.
-      + destruct Pre as [HQ Fresh]. inversion Jcn as [| ? ? Hid Hrest]; subst.
-        rewrite <- Rq. destruct (learnQ (wn w)) as [| [a c] q] eqn:LQ; [congruence |].
+      + rename Pre into Fresh. inversion Jcn as [| ? ? Hid Hrest]; subst.
+        rewrite <- Rq. destruct (learnQ (wn w)) as [| [a c] q] eqn:LQ.
+        { (* no address waits: the unchanged table is the answer *)
+          rewrite (useFreeID_null ports (wn w) id LQ) in St. cbn [nrt_result] in St.
+          inversion St; subst w' o; clear St.
+          cbn [fst snd map obs_of_rmsg app hd_error erase].
+          split; [reflexivity |].
+          pose proof (NI_null ports (wn w) Jn) as I'.
+          assert (N' : NT {| nstorage := Some (same_store (nstorage (wn w))); inv_map := inv_map (wn w); learnQ := [] |}
+                          (a_tab al)).
+          { destruct Rnt as [W AKn]. split; [exact W | exact AKn]. }
+          constructor; cbn [wn wr chN chR a_send a_queue a_tab a_chN a_chR a_rtab a_pend a_watch nstorage learnQ];
+            try assumption; try reflexivity.
+          apply Forall2_app; [assumption |]. constructor; [| constructor].
+          apply cr_b_ans; [exact Hid | eapply NT_stab; [exact I' | reflexivity | exact N'] | apply N']. }
         destruct (NI_use ports (wn w) id a c q Jn LQ Hid Fresh) as [n' [s' [E [I' [Es [Lq AK]]]]]].
         rewrite E in St. cbn [nrt_result] in St. inversion St; subst w' o; clear St.
         cbn [fst snd map obs_of_rmsg app hd_error erase].
@@ -485,7 +507,7 @@ Section Sim.
         constructor; cbn [wn wr chN chR a_send a_queue a_tab a_chN a_chR a_rtab a_pend a_watch]; try assumption;
           try reflexivity.
         apply Forall2_app; [assumption |]. constructor; [| constructor].
-        constructor; [eapply NT_stab; eassumption | apply N'].
+        apply cr_b_ans; [exact Hid | eapply NT_stab; eassumption | apply N'].
     - (* deliver to RT *)
       destruct (chR w) as [| m rest] eqn:ER; destruct (a_chR al) as [| am arest] eqn:EA;
         try (inversion Rcr; fail).
@@ -494,7 +516,7 @@ Section Sim.
       + inversion Rcr as [| ? ? ? ? Hm Hrest]; subst.
         destruct (rt_deliver (wr w) m) as [r' |] eqn:D; [| discriminate].
         inversion St; subst w' o; clear St.
-        destruct Hm as [| | s T Hst HTw]; cbn [rt_deliver] in D; cbn [fst snd map].
+        destruct Hm as [| | s T ans Hst HTw]; cbn [rt_deliver] in D; cbn [fst snd map].
         * inversion D; subst r'. split; [reflexivity |].
           constructor; cbn [wn wr chN chR rstorage pending watch a_queue a_tab a_chN a_chR a_rtab a_pend a_watch];
             try assumption. try rewrite Rw; reflexivity.
@@ -502,49 +524,49 @@ Section Sim.
           constructor; cbn [wn wr chN chR rstorage pending watch a_queue a_tab a_chN a_chR a_rtab a_pend a_watch];
             try assumption. try rewrite Rw; reflexivity.
         * split; [reflexivity |].
-          destruct (bind_installs _ _ _ D) as [s2 [Es2 [M2 C2]]].
-          destruct (deliver_bind_fact _ _ _ D) as [_ [Hpop Hw]].
+          destruct (bind_installs _ _ _ _ D) as [s2 [Es2 [M2 C2]]].
+          destruct (deliver_bind_fact _ _ _ _ D) as [_ [Hpop Hw]].
           constructor; cbn [wn wr chN chR a_queue a_tab a_chN a_chR a_rtab a_pend a_watch]; try assumption.
           -- rewrite Es2. eapply stab_same; eassumption.
-          -- destruct (a_pend al) as [| x P] eqn:EP.
-             ++ rewrite (pq_pop_nil _ Rp) in Hpop. replace (pending r') with (pending (wr w)) by congruence. exact Rp.
-             ++ destruct (pq_pop_spec _ _ _ Rp) as [q' [Eq Rq']]. rewrite Hpop in Eq. inversion Eq; subst q'. exact Rq'.
+          -- destruct (Z.eqb_spec ans (-1)) as [Ea | Ea]; cbn [negb].
+             ++ replace (pending r') with (pending (wr w)) by congruence. exact Rp.
+             ++ destruct (a_pend al) as [| x P] eqn:EP.
+                ** rewrite (pq_pop_nil _ Rp) in Hpop. replace (pending r') with (pending (wr w)) by congruence. exact Rp.
+                ** destruct (pq_pop_spec _ _ _ Rp) as [q' [Eq Rq']]. rewrite Hpop in Eq. inversion Eq; subst q'. exact Rq'.
           -- rewrite Hw. exact Rw.
   Qed.
 End Sim.
 
 Lemma refine_run : forall U ports, (length U <= 32)%nat ->
-  forall evs w al pend tg tr fin,
-  Inv U ports w pend tg -> Rel w al -> Forall (ev_ok U) evs -> Forall (evok ports) evs ->
-  run ports w evs = (tr, fin) -> quiescent_from pend tg evs tr = true ->
+  forall evs w al tr fin,
+  Inv U ports w -> Rel w al -> Forall (ev_ok U) evs -> Forall (evok ports) evs ->
+  run ports w evs = (tr, fin) ->
   map (map erase) tr = map (map erase) (arun ports al evs).
 Proof.
-  intros U ports US. induction evs as [| e es IH]; intros w al pend tg tr fin HI HR E1 E2 Hr Hq.
+  intros U ports US. induction evs as [| e es IH]; intros w al tr fin HI HR E1 E2 Hr.
   - cbn in Hr. inversion Hr; subst. reflexivity.
   - inversion E1; subst. inversion E2; subst.
-    destruct (Inv_step U ports w pend tg e US HI H1 H3) as [w' [o [S Nx]]].
+    destruct (Inv_step U ports w e US HI H1 H3) as [w' [o [S Nx]]].
     cbn [run] in Hr. rewrite S in Hr. destruct (run ports w' es) as [tr' fin'] eqn:R.
     inversion Hr; subst tr fin; clear Hr.
-    rewrite quiescent_from_step in Hq.
-    destruct (qstep pend tg e o) as [[p' tg'] |] eqn:Q; [| discriminate].
-    destruct (Rel_step U US ports w al pend tg e w' o HR HI H1 H3 S) as [Eo HR'].
+    destruct (Rel_step U US ports w al e w' o HR HI H1 H3 S) as [Eo HR'].
     cbn [arun]. destruct (astep ports al e) as [al' o'] eqn:A. cbn [fst snd] in Eo, HR'.
-    cbn [map]. rewrite Eo. f_equal.
-    apply (IH w' al' p' tg' tr' fin' (Nx _ _ eq_refl) HR' H2 H4 R Hq).
+    cbn [map]. f_equal; [exact Eo |].
+    apply (IH w' al' tr' fin' Nx HR' H2 H4 R).
 Qed.
 
-(* Every quiescent history (<= 32 controllers, 7-bit values, mapped addresses in
-   the port table): the model's records are those of the abstract
-   specification, event by event - the same queue traffic, the same
-   assignments (controller, address, kind), a parameter message exactly where
-   the abstract table has the controller and to the address it says (erase
-   drops only the value a message carries). *)
-Theorem refine_quiescent : forall ports evs tr fin U,
+(* Every history (<= 32 controllers, 7-bit values, mapped addresses in the
+   port table), whatever the delivery order: the model's records are those of
+   the abstract specification, event by event - the same queue traffic, the
+   same assignments (controller, address, kind), a parameter message exactly
+   where the abstract table has the controller and to the address it says
+   (erase drops only the value a message carries). *)
+Theorem refine_all : forall ports evs tr fin U,
   (length U <= 32)%nat -> incl (ccids evs) U -> Forall (evok ports) evs ->
-  run ports world0 evs = (tr, fin) -> quiescent evs tr = true ->
+  run ports world0 evs = (tr, fin) ->
   map (map erase) tr = map (map erase) (arun ports astate0 evs).
 Proof.
-  intros ports evs tr fin U US Hi He Hr Hq.
+  intros ports evs tr fin U US Hi He Hr.
   eapply (refine_run U ports US); try eassumption.
   - apply Inv_init.
   - apply Rel0.
@@ -559,5 +581,5 @@ Lemma refine_example_with_values :
                EMap 1 false; EDelR; ECC 6 3 1 false; EDelN; EDelR; ECC 6 5 1 false;
                EMap 0 true; EDelR; ECC 7 9 1 false; EDelN; EDelR; ECC 7 100 1 false; ECC 5 2 1 false;
                EUnmap 1 true; EDelR; ECC 5 1 1 false; ECC 6 77 1 false; EClear; EDelR; ECC 6 1 1 false ] in
-  fst (run ports world0 evs) = arun ports astate0 evs /\ quiescent evs (fst (run ports world0 evs)) = true.
+  fst (run ports world0 evs) = arun ports astate0 evs /\ nocross evs (fst (run ports world0 evs)) = true.
 Proof. vm_compute. split; reflexivity. Qed.
